@@ -20,7 +20,7 @@ pub fn gen_mesh_death(r: &mut Rng, frames: i32) -> Scn {
     s.frames = frames;
     s.notify_ms = r.pick(&[200u64, 500]);
     s.timeout_ms = s.notify_ms + r.pick(&[200u64, 1000, 1500]);
-    s.link = Link { drop: r.pick(&[0.0, 0.0, 0.03]), dup: r.pick(&[0.0, 0.1]), base_ms: r.pick(&[0u64, 10, 30, 60]), jitter_ms: r.pick(&[0u64, 5, 20]), outages: vec![], faults: vec![] };
+    s.link = Link { drop: r.pick(&[0.0, 0.0, 0.03]), dup: r.pick(&[0.0, 0.1]), base_ms: r.pick(&[0u64, 10, 30, 60]), jitter_ms: r.pick(&[0u64, 5, 20]), outages: vec![], faults: vec![], stragglers: vec![] };
     if s.link.drop > 0.0 {
         // a single lost keep-alive must not time out a live peer
         s.timeout_ms = s.timeout_ms.max(s.notify_ms + 1000);
@@ -38,6 +38,16 @@ pub fn gen_mesh_death(r: &mut Rng, frames: i32) -> Scn {
     }
     let victim = r.below(n as u64) as usize;
     s.kill = Some(Kill { node: victim, at_ms: r.range(1800, 3500), pdrop: r.pick(&[0.0, 0.5, 0.5, 1.0]) });
+    // straggling copies: some packets sent around the moment of death arrive once more long after the survivors have
+    // timed the dead peer out (a network may duplicate and delay): old gossip then follows newer gossip
+    if r.chance(0.3) {
+        let at = s.kill.as_ref().unwrap().at_ms;
+        let g = Straggler { from_ms: at.saturating_sub(r.range(100, 600)), to_ms: at + r.range(50, 300), every: r.range(1, 4), delay_ms: s.timeout_ms + r.range(50, 1500) };
+        s.link.stragglers.push(g.clone());
+        for o in s.link_overrides.iter_mut() {
+            o.2.stragglers.push(g.clone());
+        }
+    }
     s.start = Start::AllRunning;
     s.settle_ms = 1500;
     s
